@@ -142,7 +142,11 @@ class InstrumentedServer:
             elif isinstance(self.auth, list):
                 authenticated = client_auth in self.auth
             else:
-                authenticated = self.auth(client_auth)
+                try:
+                    authenticated = self.auth(client_auth)
+                except Exception:
+                    # a callable that fails on this payload did not accept it
+                    self.sio.logger.exception('Admin authentication error')
             if not authenticated:
                 raise ConnectionRefusedError('authentication failed')
 
